@@ -1,7 +1,7 @@
 (* C13 — Output regions never overlap or overflow silently.  Statements only; proofs in Asm/SegProofs.v, SegPut.v,
    InstrSize.v, CtxInvDefs.v, CtxInvSeg.v, CtxInvStep.v, CtxInvCap.v, CtxInvTop.v.
    Model: Asm/CtxSeg.v + Asm/CtxModel.v (transliteration of src/asm/mod.rs, the directives and the deferred-statement
-   code of src/arm6m/mod.rs after the repairs d7ad029, 14f510b, a613c66, fe020dd).
+   code of src/arm6m/mod.rs after the repairs d7ad029, 14f510b, a613c66, fe020dd, 8bb2c3e).
 
    SegInv m s : |buf| <= max_len, 0 < max_len, base + max_len <= 2^32, and every segment of the map m ends below base or
                 starts at/after base + max_len (so the active range is disjoint from the occupied set and its
@@ -19,7 +19,7 @@
    seg_site p : p is one of the panic sites of the segment / map code: P_close_assert (assert_eq!(n, len) at close),
                 P_put_assert_instr / P_put_assert_data (assert_eq!(n, 0) in write_instr / write_data), any panic inside
                 MemoryMap::{find, put} (P_map _), the usize subtractions P_remaining / P_next_sub / P_write_at_sub,
-                P_not_inactive;
+                P_not_inactive, and the assert of write_at P_write_at_assert (addr <= curr_addr());
    stmt_size fs st s e : the number of bytes statement e appends when that is known before it runs (instruction: size
                 of the mnemonic; .du*: 1/2/4; .dstr/.dhex/.dfile: the bytes given; .align n: distance to the next
                 multiple); cshape / wshape: the possible effects of a statement / of a resolving task (CtxInvCap.v).
@@ -29,13 +29,14 @@
 
    Whole programs, `.include` included (the recursion of Context::assemble is covered by induction on its fuel): every
    state reached by `pipeline` from init_state is `good` (C13_inv_step / C13_inv_task / C13_inv_assemble /
-   C13_inv_finalize / C13_inv_pipeline), no seg_site panic occurs (C13_no_assert_fires).
+   C13_inv_finalize / C13_inv_pipeline), no seg_site panic occurs (C13_no_assert_fires, C13_write_at_assert_never).
+   The assert inside write_at used to fire for a task resolving inside a buffer of exactly 2^32 bytes (`buffer.len()
+   as u32` = 0; witness `.addr 0; .du32 0; .du32 X; .align 0xFFFFFFFF; .du8 0; .const X, 1;`, found by the C06
+   proof); repaired by 8bb2c3e (curr_addr saturates), now excluded unconditionally.
 
    NOT proved:
-   * the assert of write_at itself (P_write_at_assert: addr <= curr_addr()) is excluded only while the active buffer
-     holds fewer than 2^32 bytes (C13_write_at_assert_only_full): with a buffer of exactly 2^32 bytes (base 0),
-     `buffer.len() as u32` is 0, curr_addr() is 0 and a task resolving inside that buffer trips the assert.  Panics that
-     depend on the scope discipline (P_no_local_scope, P_active_unwrap, ...) belong to C06 / C14.
+   * panics that depend on the scope discipline (P_no_local_scope, P_active_unwrap, ...) belong to C06 / C14
+     (C06_never_panics).
    * C13_capacity_stmt covers a statement whose size is known before it runs (stmt_size = Some n).  It says: the map is
      untouched, and either nothing is written, an error level is returned and a diagnostic has been pushed, or all n
      bytes are appended within max_len.  The class of the diagnostic (ASegOverflow / KInstrSegOverflow, or an earlier
@@ -176,11 +177,14 @@ Theorem C13_image_rep : forall dbg fs fuel path text s diags regions,
   pipeline_gen dbg fs fuel path text = Done s diags regions -> exists m, Rep m /\ regions = map_iter m.
 Proof. exact pipeline_image_rep. Qed.
 
-(* the assert inside write_at can only fire for a task that resolves inside a buffer of exactly 2^32 bytes *)
-Theorem C13_write_at_assert_only_full : forall dbg st f l c a data ko kp pa, Inv st ->
-  allocated st a (MapModel.len data) -> 0 < MapModel.len data ->
-  write_stmt dbg st f l c a data ko kp pa = Panic P_write_at_assert -> exists s, active st = Active s /\ blen s = MapModel.U32.
-Proof. exact write_at_assert_only_full. Qed.
+(* the assert inside write_at (addr >= base && addr <= curr_addr()) never fires: not for a write over an allocated
+   range in a state satisfying Inv (also with a buffer of 2^32 bytes: curr_addr saturates, fix 8bb2c3e), and not in
+   any pipeline run *)
+Theorem C13_write_at_assert_never :
+  (forall dbg st f l c a data ko kp pa, Inv st -> allocated st a (MapModel.len data) -> 0 < MapModel.len data ->
+     write_stmt dbg st f l c a data ko kp pa <> Panic P_write_at_assert) /\
+  (forall dbg fs fuel path text, pipeline_gen dbg fs fuel path text <> PPanic P_write_at_assert).
+Proof. exact write_at_assert_never. Qed.
 
 (* ---------------------------------------------------------------- capacity at statement level *)
 (* a statement of known size n (instruction, .du8/16/32, .dstr, .dhex, .dfile, .align) on the active segment s:
